@@ -34,7 +34,9 @@ BOUNDS = {
 }
 OUTSIDE = 'HTTP relay clients (same pool code; their result handling is C11/C14)'
 STUBS = ['ScriptedPeer per connection (counts open connections)',
-         'fake wait_read over PipeSockets', 'virtual-time loop']
+         'fake wait_read over PipeSockets', 'virtual-time loop',
+         'socket.getfqdn -> constant at once; gevent.socket.getfqdn -> one '
+         'yield, then the constant']
 ASSUMPTIONS = []
 CELL_BUDGET_S = {'quick': 240, 'thorough': 2400}
 SAMPLE_P = 0.02
@@ -61,6 +63,9 @@ def cells(tier):
                 'svc': 1, 'fair': 1})
     out.append({'kind': 'pool', 'size': 1, 'idle': 1, 'k': 2, 'faults': 1,
                 'lmtp': 1})
+    # no ehlo_as configured: every new client looks the host name up
+    out.append({'kind': 'pool', 'size': 1, 'idle': 0, 'k': 3, 'faults': 0,
+                'fqdn': 1, 'fair': 1, 'svc': 1})
     out.append({'kind': 'pool421', 'size': 1})
     out.append({'kind': 'pool421', 'size': 2})
     out.append({'kind': 'deque', 'L': 4})
@@ -74,6 +79,17 @@ def setup(mode):
     import slimta.util.deque
     import slimta.smtp.client as sc
     sc.wait_read = nc.fake_wait_read
+    # host name look-up: the blocking one answers at once, the cooperative
+    # one (gevent.socket.getfqdn) lets other greenlets run first
+    import socket as _s
+    import gevent
+    import gevent.socket as _gs
+    _s.getfqdn = lambda name='': 'me.example'
+
+    def coop_getfqdn(name=''):
+        gevent.sleep(0)
+        return 'me.example'
+    _gs.getfqdn = coop_getfqdn
 
 
 def run(cell):
@@ -86,7 +102,8 @@ OUTCOMES = ['ok', 'refuse-mail', 'refuse-rcpt', 'drop-at-data',
 
 
 class World(object):
-    def __init__(self, size, idle, outcome_of, service_time, lmtp=False):
+    def __init__(self, size, idle, outcome_of, service_time, lmtp=False,
+                 fqdn=False):
         from slimta.relay.smtp.static import StaticSmtpRelay, StaticLmtpRelay
         self.lmtp = lmtp
         self.open = 0
@@ -121,7 +138,8 @@ class World(object):
         self.relay = (StaticLmtpRelay if lmtp else StaticSmtpRelay)(
                                      'mx.example', 25,
                                      pool_size=size or None,
-                                     socket_creator=creator, ehlo_as='me',
+                                     socket_creator=creator,
+                                     ehlo_as=None if fqdn else 'me',
                                      context=object(), command_timeout=10,
                                      data_timeout=10, **kw)
 
@@ -224,7 +242,8 @@ def run_pool(cell):
                 durs[sender] = api.real('svc_%s' % sender, 0, 3)
             return durs[sender]
     lmtp = bool(cell.get('lmtp'))
-    w = World(cell['size'], cell['idle'], outcome_of, svc, lmtp=lmtp)
+    w = World(cell['size'], cell['idle'], outcome_of, svc, lmtp=lmtp,
+              fqdn=bool(cell.get('fqdn')))
     outs = {}
     times = [api.real('t%d' % i, 0, 8) for i in range(k)]
     if cell.get('fair'):
@@ -233,7 +252,7 @@ def run_pool(cell):
     done_at = {}
 
     def go(i, wait=True):
-        if wait:
+        if wait and not cell.get('fair'):
             gevent.sleep(times[i])
         env = qc.make_envelope('m%d' % i, 's%d@z' % i,
                                ['r%d@x' % i] + (['q%d@x' % i] if lmtp
